@@ -11,12 +11,16 @@
   (4) `terminates`: for every grammar with a well-formedness certificate (`WfCert`: no left recursion,
   also through nullable prefixes and exclusions; min ≤ max) the engine answers for every source and
   offset within the explicit fuel `fuelFor`, also when repetitions range over nullable elements.
+  (5) `rule_lists_at_most_span_plus_one`: the RESULT of a rule is small - at most |s| - i + 1 matches (one per end) -
+  whatever the ambiguity of the grammar; this is the size ingredient of the work bound.
   NOT proved (stated in DESIGN.md): the polynomial WORK bound (fuel bounds the recursion DEPTH; the real
   code is exponential on some grammars, known finding F14).
 -/
 import Abnf.FlagLemmas
 import Abnf.Mono
 import Abnf.Wf
+import Abnf.RuleResult
+import Abnf.Tiling
 namespace Abnf.C12
 
 /-- (1) In a closed grammar (every referenced or excluded rule has a definition) parsing never raises
@@ -80,5 +84,41 @@ theorem terminates_expr {G : Grammar} {N : Nat → Bool} {rank : Nat → Nat} {K
 example :
     let G : Grammar := #[⟨"r", some (.rep 0 0 none (.rep 1 0 none (.lit [] false))), none⟩]
     stops (match lparse G 10 [97] (.ref 0) 0 with | .ok ms => ms | _ => []) = [0] := by decide
+
+/-- pigeonhole: a duplicate-free list of numbers from `[a, a + n)` has at most `n` members -/
+theorem nodup_bounded_length : ∀ (n : Nat) (l : List Nat) (a : Nat), l.Nodup → (∀ x ∈ l, a ≤ x ∧ x < a + n) → l.length ≤ n
+  | 0, l, a, _, hb => by
+    cases l with
+    | nil => simp
+    | cons x xs => have := hb x List.mem_cons_self; omega
+  | n + 1, l, a, hn, hb => by
+    have h1 : (l.erase (a + n)).length ≤ n := by
+      apply nodup_bounded_length n _ a (hn.erase _)
+      intro x hx
+      have hx' := (hn.mem_erase_iff).mp hx
+      have := hb x hx'.2
+      omega
+    rw [List.length_erase] at h1
+    split at h1 <;> omega
+
+/-- (5) **The answer of a rule is small**: whatever the grammar (ambiguous, nullable, with flags and exclusions), a rule
+lists at most one match per end offset and every end lies in `start..len(source)`, so the list has at most
+`len(source) - start + 1` members.  (The number of derivations may be exponential; the listing is not.) -/
+theorem rule_lists_at_most_span_plus_one (G : Grammar) (hG : GBoundsOk G) (f : Nat) (s : Src) (r i : Nat)
+    (hi : i ≤ s.length) (out : List Match) (h : lparse G f s (.ref r) i = .ok out) :
+    out.length ≤ s.length - i + 1 := by
+  have hok := lparse_ref_ok hG hi h
+  have hlen : out.length = (stops out).length := by simp [stops]
+  rw [hlen]
+  apply nodup_bounded_length _ _ i hok.stops_nodup
+  intro x hx
+  simp only [stops, List.mem_map] at hx
+  obtain ⟨m, hm, rfl⟩ := hx
+  have hf := derives_faithful (hok.derives m hm) hi
+  have := hf.le; have := hf.bound
+  omega
+
+example : (match lparse #[⟨"r", some (.rep 0 0 none (.alt [.lit [97] false, .lit [97, 97] false] false)), none⟩] 20 [97, 97, 97] (.ref 0) 0 with
+    | .ok ms => ms.length | _ => 0) = 4 := by decide
 
 end Abnf.C12
